@@ -3,9 +3,11 @@ mod findings;
 mod json;
 mod oracles;
 mod probe;
+mod pull;
 mod puppet;
 mod report;
 mod rng;
+mod run_pull;
 mod run_sched;
 mod run_seq;
 mod sched;
@@ -98,10 +100,14 @@ fn check(o: &Opts) -> i32 {
     let mut rep = Report::default();
     let mut engines: Vec<&str> = vec![];
     match o.prop.as_str() {
-        "C01" | "C02" | "C03" | "C04" | "C05" | "C07" | "C08" | "C09" | "C10" | "C11" | "C12" | "C17" => {
+        "C01" | "C02" | "C03" | "C04" | "C05" | "C07" | "C08" | "C09" | "C10" | "C11" | "C12" | "C14" | "C15" | "C17" => {
             engines.push("E1-seq");
             run_seq::run_witnesses(o, &mut rep);
             run_seq::run(o, &mut rep);
+        },
+        "C06" => {
+            engines.push("E2-pull");
+            run_pull::run(o, &mut rep);
         },
         "C18" | "C19" => {
             engines.push("E4-sched");
@@ -297,6 +303,7 @@ fn replay(o: &Opts) -> i32 {
     match parts.first().copied() {
         Some("E1") => run_seq::replay(o, &parts),
         Some("E4") | Some("E4e") => run_sched::replay(o, &parts),
+        Some("E2") => run_pull::replay(o, &parts),
         _ => {
             eprintln!("unknown engine in case id {}", id);
             2
